@@ -6,7 +6,7 @@ import json, sys
 props = {}
 for l in open('/verif/properties.jsonl'):
     p = json.loads(l); props[p['id']] = p
-tmpl = '''You are helping test a verification tool by seeding a realistic defect into a Go project. Work ONLY inside the git worktree {wt} (a checkout of goreleaser/nfpm, a Go library + CLI that writes deb, rpm, apk, ipk and Arch Linux packages). Do not read or write anything under /verif or /repo, and do not look at other /tmp/wt-* directories.
+tmpl = '''You are helping test a verification tool by seeding a realistic defect into a Go project. Work ONLY inside the git worktree {wt} (a checkout of goreleaser/nfpm, a Go library + CLI that writes deb, rpm, apk, ipk and Arch Linux packages). Do not read or write anything under /verif, /repo or /root/.claude (no notes, no earlier conversations), and do not look at other /tmp/wt-* directories.
 
 Environment: no network. Before every go command run: export GOFLAGS=-mod=mod GOPROXY=off GOSUMDB=off   (use the default `go`, version 1.23). The existing test suite is `go test -vet=off -count=1 $(go list ./... | grep -v /demo)` run in {wt}. IMPORTANT: never use `git stash` (the stash is shared between all worktrees of this repository and other people are working in sibling worktrees); to test without your change use `git diff > /tmp/{name}.patch && git apply -R /tmp/{name}.patch`, and `git apply /tmp/{name}.patch` to put it back. Put temporary files only under {wt} or /tmp/{name}-*, and remove the latter when done.
 
